@@ -759,9 +759,10 @@ int lp_value_mul_approx(const lp_value_t* v1, const lp_value_t* v2, lp_value_t* 
           lp_value_assign_raw(lb, LP_VALUE_DYADIC_RATIONAL, &mul_dy_interval.a);
         }
         if (ub) {
-          lp_value_assign_raw(ub, LP_VALUE_DYADIC_RATIONAL, &mul_dy_interval.b);
+          // the product of the two isolating intervals is the point 0 when one factor is the point 0
+          lp_value_assign_raw(ub, LP_VALUE_DYADIC_RATIONAL, mul_dy_interval.is_point ? &mul_dy_interval.a : &mul_dy_interval.b);
         }
-        is_point = 0;
+        is_point = mul_dy_interval.is_point;
         lp_dyadic_interval_destruct(&mul_dy_interval);
       }
       break;
